@@ -24,13 +24,18 @@ claim("C04",
       "Rocq proof (induction over the greedy loop) + checked model/code correspondence + exhaustive small core in thorough tier",
       "DESIGN.md section 6 C04, section 5 K1")
 claim("C02",
-      "Theorems (Coq, unbounded): page slices taken by cumulative heights partition the rows; segment-wise rendering "
+      "Theorems (Coq, unbounded): C02_section_partition - for every section without group_by whose pagination succeeds the "
+      "pages' row slices concatenate to exactly the frame's rows (one metadata entry per row, non-decreasing greedy page "
+      "numbers, build_pages ranges summing to the row count, re-slicing by those lengths); C02_page_rows - a page rendered in "
+      "segments around group headings is an order-preserving interleaving of its data rows (each once, at its own offset) "
+      "with heading rows; page slices taken by cumulative heights partition the rows; segment-wise rendering "
       "with carried offsets equals whole-page rendering (no row dropped or duplicated at a group boundary); one rendered "
       "row per frame row and one cell per value; column removal preserves order. The predicate check_c02 (tags 0..n-1 in "
       "order per section, every visible cell text equal to the value's display text) is evaluated on the parsed output of "
       "rtf_encode(), and the parsed items must equal the model's items.",
-      "The lift from kernels to the whole pipeline is validated by correspondence, not proved (see C02_partial note in "
-      "Properties/C02.v); text domain as the quantifier states; RTF reader (Rtf/Read.v, Rtf/Decode.v) is my formalisation.",
+      "Not proved: that the reader recovers the text of each cell (C10/C11's theorems on the C02 text domain) and the "
+      "identification of cell k of rendered row j with value (j,k) (definitional in encode_cells); see the C02_partial note in "
+      "Properties/C02.v; text domain as the quantifier states; RTF reader (Rtf/Read.v, Rtf/Decode.v) is my formalisation.",
       "Rocq proof of slicing/segment kernels + checked model/code correspondence on tagged rows",
       "DESIGN.md section 6 C02")
 claim("C13",
